@@ -398,6 +398,7 @@ def _slice_build(p, rule):
         if form != "4in":
             ins.append(mb.const(mk(pv), k[3], alts=[mk([2] * len(pv))]))
     mb.out(mb.node("Slice", ins))
+    mb.anon_unknown = True   # with unnamed input dims the Slice output's unknown dim is anonymous too
     return mb
 
 
